@@ -6,7 +6,7 @@ Creates /tmp/wt_<name> (git worktree of /repo HEAD), applies patch.diff, optiona
 (expected to fail) and the crate's own tests (expected to pass), runs `VERIF_REPO=<wt> ./check <ID>` for each
 property, writes seeded/<name>/result.json, removes the worktree and the alternative workspace.
 """
-import argparse
+import re, argparse
 import hashlib
 import json
 import os
@@ -35,6 +35,7 @@ def main():
     name = os.path.basename(d.rstrip("/"))
     meta = json.load(open(os.path.join(d, "meta.json"))) if os.path.exists(os.path.join(d, "meta.json")) else {}
     props = a.props.split(",") if a.props else meta.get("properties") or [meta.get("property")]
+    props = [re.match(r"C\d\d", str(x)).group(0) if re.match(r"C\d\d", str(x)) else x for x in props]
     wt = "/tmp/wt_%s" % name
     sh("git -C /repo worktree remove --force %s" % wt)
     rc, out = sh("git -C /repo worktree add %s HEAD" % wt)
